@@ -281,8 +281,9 @@ class StatsInfo(sm.ClassInfo):
 
 class Func:
     """a translated local function / loop pass: name, captured variables, own parameters, whether it returns an object parameter"""
-    def __init__(self, name, lean, captured, params, objparam, ret):
+    def __init__(self, name, lean, captured, params, objparam, ret, needs_self=False):
         self.name, self.lean, self.captured, self.params, self.objparam, self.ret = name, lean, captured, params, objparam, ret
+        self.needs_self = needs_self        # it reads attributes of the state: `self_` is passed (read only)
 
 
 class Tr(sm.MethodTranslator):
@@ -557,7 +558,8 @@ class Tr(sm.MethodTranslator):
             if c not in self.env:
                 raise self.err('%s captures %s, which is not defined at the call' % (fu.name, c), call)
         r = self.fresh('r')
-        self.emit('let %s ← %s E S cfg%s%s' % (r, fu.lean, ''.join(' ' + c for c in fu.captured), ''.join(' ' + v.term for v in vals)))
+        self.emit('let %s ← %s E S cfg%s%s%s' % (r, fu.lean, ' self_' if fu.needs_self else '', ''.join(' ' + c for c in fu.captured),
+                                               ''.join(' ' + v.term for v in vals)))
         if fu.objparam is not None:
             i = [p for p, _ in fu.params].index(fu.objparam)
             self.write_back(vals[i].term, '%s.2.2' % r, '%s.1' % r)
@@ -771,6 +773,7 @@ class Tr(sm.MethodTranslator):
         r, w, calls = scan_rw(fdef)
         if w:
             raise self.err('the local function %s stores self.%s' % (fdef.name, sorted(w)[0]), fdef)
+        needs_self = any(a not in self.ci.cfg and a != 'device' for a in r)
         objs = [p for p in own if isinstance(kinds[p], tuple) and kinds[p][0] == 'obj']
         stepped = [p for p in objs if any(isinstance(n, ast.Call) and isinstance(n.func, ast.Attribute) and isinstance(n.func.value, ast.Name)
                                           and n.func.value.id == p for n in ast.walk(fdef))]
@@ -798,13 +801,15 @@ class Tr(sm.MethodTranslator):
             raise self.err('the local function %s returns nothing' % fdef.name, fdef)
         rty = lty(sub.ret_kind)
         res = 'Option (%s × %s × List String)' % (lty(kinds[stepped[0]]), rty) if stepped else 'Option %s' % rty
-        head = 'def %s %s%s%s : %s := do' % (lean, self.head(device=False), ''.join(' (%s : %s)' % (c, lty(self.env[c])) for c in captured),
-                                            ''.join(' (%s : %s)' % (p, lty(kinds[p])) for p in own), res)
+        head = 'def %s %s%s%s%s : %s := do' % (lean, self.head(device=False), ' (self_ : %s)' % self.ci.self_ty() if needs_self else '',
+                                              ''.join(' (%s : %s)' % (c, lty(self.env[c])) for c in captured),
+                                              ''.join(' (%s : %s)' % (p, lty(kinds[p])) for p in own), res)
         doc = '/-- `%s(%s)` defined inside `%s.calc_statsmaps` (%s), statement by statement; captured: %s%s -/' % (
             fdef.name, ', '.join(own), self.ci.name, self.ci.spec['file'], ', '.join(captured) if captured else 'nothing',
             '; the object `%s` is stepped: returns (its state after the call, value, attributes it stored)' % stepped[0] if stepped else '')
         self.out_defs.append([doc, head] + sub.lines + [''])
-        self.locals_fn[fdef.name] = Func(fdef.name, lean, captured, [(p, kinds[p]) for p in own], stepped[0] if stepped else None, sub.ret_kind)
+        self.locals_fn[fdef.name] = Func(fdef.name, lean, captured, [(p, kinds[p]) for p in own], stepped[0] if stepped else None, sub.ret_kind,
+                                         needs_self)
 
     # ------------------------------------------------------------------ loops
     def for_range(self, s):
